@@ -341,6 +341,44 @@ func genExtCase(t *rapid.T, kinds []string, maxN, maxRaw int, profiles bool) ext
 		}
 		leaf.Extensions = genExtList(t, "leafext", kinds, maxN, maxRaw)
 		c.W.Ents = append(c.W.Ents, leaf)
+		if len(leaf.Extensions) > 0 && rapid.IntRange(0, 3).Draw(t, "twin") == 0 {
+			// a second certificate under the same issuer whose list is the first one's with small differences: the other
+			// critical flag on some entries, admission items joined or split, name lists and flag lists cut by one
+			twin := core.Entity{File: "sub/twin.yml", Subject: []core.RDN{{Key: "CN", Value: "Ext Twin"}, {Key: "O", Value: "Org"}}, Issuer: "ca", SigAlg: leaf.SigAlg}
+			for i, x := range leaf.Extensions {
+				y := cloneExt(x)
+				switch rapid.IntRange(0, 3).Draw(t, fmt.Sprintf("twin%d", i)) {
+				case 0:
+					if y.IsCritical() {
+						y.Critical = core.BoolP(false)
+					} else {
+						y.Critical = core.BoolP(true)
+					}
+				case 1:
+					switch {
+					case y.Adm != nil && y.HasContent:
+						for ai := range y.Adm.Contents {
+							for pi := range y.Adm.Contents[ai].Infos {
+								info := &y.Adm.Contents[ai].Infos[pi]
+								if len(info.Items) >= 2 {
+									info.Items = append([]string{info.Items[0] + " " + info.Items[1]}, info.Items[2:]...)
+								} else if len(info.Items) == 1 {
+									info.Items = []string{info.Items[0], info.Items[0]}
+								}
+							}
+						}
+					case len(y.SAN) >= 2 && y.HasContent:
+						y.SAN = y.SAN[:len(y.SAN)-1]
+					case len(y.KU) >= 2 && y.HasContent:
+						y.KU = y.KU[1:]
+					case len(y.EKU) >= 2 && y.HasContent:
+						y.EKU = y.EKU[:len(y.EKU)-1]
+					}
+				}
+				twin.Extensions = append(twin.Extensions, y)
+			}
+			c.W.Ents = append(c.W.Ents, twin)
+		}
 	}
 	if profiles {
 		for i := range c.W.Ents {
